@@ -98,6 +98,8 @@ def run_driver(name, params, workdir):
         kw = dict(ra_name="ra", dec_name="dec", weight_name="w", redshift_name="z", chunksize=params["chunk"], max_workers=mw)
         if params["mode"] == "centres":
             kw["patch_centers"] = AngularCoordinates(np.deg2rad(CENTRES_DEG))
+        elif params["mode"] == "generate":
+            kw.update(patch_num=2, probe_size=params["n"])
         else:
             kw["patch_name"] = "patch"
         if params["source"] == "dataframe":
@@ -110,6 +112,21 @@ def run_driver(name, params, workdir):
             g = BoxRandoms(19.0, 25.0, 4.0, 6.0, weights=cols["w"], redshifts=cols["z"], seed=params["seed"] % 1000)
             cat = Catalog.from_random(workdir / "out", g, params["n"], patch_centers=AngularCoordinates(np.deg2rad(CENTRES_DEG)),
                                       chunksize=params["chunk"], max_workers=mw)
+        if params["mode"] == "generate":
+            # generated centres are not reproducible between runs by documentation: structural digest only
+            # (all records once, every record nearest to its patch's reported centre)
+            rows = np.concatenate([cat[p].load_data() for p in cat])
+            cen = cat.get_centers().to_3d()
+            ok = True
+            for p in cat:
+                d = cat[p].load_data()
+                xyz = AngularCoordinates(np.column_stack([d["ra"], d["dec"]])).to_3d()
+                dist = ((xyz[:, None, :] - cen[None, :, :]) ** 2).sum(axis=2)
+                srt = np.sort(dist, axis=1)
+                margin = srt[:, 1] - srt[:, 0] if dist.shape[1] > 1 else np.ones(len(d))
+                ok &= bool(np.all((dist.argmin(axis=1) == list(cat.keys()).index(p)) | (margin < 1e-12)))
+            return dict(all=h(np.sort(rows, order=list(rows.dtype.names)).tobytes()), n=int(len(rows)), keys=[int(k) for k in cat.keys()],
+                        partition_reproduced=ok)
         return catalog_digest(cat)
 
     base = workdir / "base"
